@@ -421,7 +421,8 @@ def judgeIts (prop : String) (st : DState) (fields : List String) (impl : Option
         | "C14" => "VIOLATION:token-id-or-manager-binding-differs"
         | "C17" => "VIOLATION:gas-forwarding-differs"
         | "C18" => "VIOLATION:deployment-step-effects-differ"
-        | "C19" => "VIOLATION:remote-deploy-payload-differs"
+        | "C19" => if func == "approveDeployRemoteInterchainToken" || func == "revokeDeployRemoteInterchainToken"
+                   then "VIOLATION:approval-or-revocation-effects-differ" else "VIOLATION:remote-deploy-payload-differs"
         | _ => "ok"
       else "ok"
     | _, _, _ => "ok"
